@@ -8,15 +8,27 @@ SECANT = nra.Lemma("lemma_secant_between", ["l", "r", "fl", "fr"],
                    note="the secant point of a sign-change bracket lies inside the bracket")
 
 
+FALSI = nra.Lemma("lemma_falsi_between", ["l", "r", "fl", "fr", "xf"], ["fl <= 0", "0 <= fr", "fr - fl > 0", "xf * (fr - fl) == fr * l - fl * r"], "min(l, r) <= xf <= max(l, r)",
+                  note="ITP: the regula-falsi point (f_r l - f_l r)/(f_r - f_l) of a bracket with f_l <= 0 <= f_r lies inside it")
+TRUNC = nra.Lemma("lemma_truncation_between", ["h", "f", "d", "sg", "dl", "xt"],
+                  ["d >= 0", "d == h - f or d == f - h", "d <= 0 or sg * d == h - f", "0 <= dl", "dl <= d", "xt == f + sg * dl"], "min(f, h) <= xt <= max(f, h)",
+                  note="ITP truncation: x_f + sigma delta with sigma = (x_half - x_f)/|x_half - x_f| and 0 <= delta <= |x_half - x_f| lies between x_f and x_half")
+PROJ = nra.Lemma("lemma_projection_between", ["h", "f", "d", "sg", "dl", "xt", "r", "xi", "a"],
+                 ["d > 0", "d == h - f or d == f - h", "sg * d == h - f", "0 <= dl", "dl <= d", "xt == f + sg * dl", "a >= 0", "a == xt - h or a == h - xt", "0 <= r", "r < a", "xi == h - sg * r"],
+                 "min(f, h) <= xi <= max(f, h) and (xi - h == r or h - xi == r)",
+                 note="ITP projection: x_half - sigma r with 0 <= r < |x_t - x_half| lies between x_f and x_half, at distance exactly r from x_half")
+ITP_LEMMAS = [FALSI, TRUNC, PROJ]
+
+
 def extra_obligations(ctx):
-    return nra.run_lemmas("C07", "roots", [SECANT], ctx)
+    return nra.run_lemmas("C07", "roots", [SECANT] + ITP_LEMMAS, ctx)
 
 
 def units(ctx):
     u = Unit("C07", "roots")
     u.spec(r'''
 pub uninterp spec fn F(t: real) -> real;
-''' + SECANT.verus_stub() + r'''
+''' + SECANT.verus_stub() + "".join(l.verus_stub() for l in ITP_LEMMAS) + r'''
 // [l, r] is a sign-change bracket around x of width <= w inside [a, b]
 pub open spec fn sc(l: real, r: real) -> bool { F(l) * F(r) <= 0real }
 pub open spec fn nonpos_nonneg(l: real, r: real) -> bool { F(l) <= 0real <= F(r) }
@@ -90,32 +102,98 @@ pub proof fn lemma_sign_keep2(fl: real, fm: real, fr: real)
 
 def itp(u):
     f = u.fn("src/roots/mod.rs", "itp")
-    f.attrs.append("#[verifier::exec_allows_no_decreases_clause]")
-    # the i32 iteration counter has no bound in the code (termination is not decided): its
-    # overflow check is switched off by using the release-mode (wrapping) meaning of `+= 1`
-    f.opt(subst=[("j += 1", "j = j.wrapping_add(1)", "R9-wrapping-counter")])
-    f.req("forall|t: R| f_0.requires((t,))",    # where ITP evaluates f is NOT decided (see NOT_DECIDED)
-          "forall|t: R, y: R| f_0.ensures((t,), y) ==> y@ == F(t@)")
+    LO, HI = "rmin(initial.0@, initial.1@)", "rmax(initial.0@, initial.1@)"
+    # E0 = n_half + 2 n_0: the bound on the number of iterations (as the routine computes it)
+    E0 = "(rceil(rlog2(rabs(initial.1@ - initial.0@) / (2real * tol@))) + 2real * n_0@)"
+    f.req(f"forall|t: R| {LO} <= t@ <= {HI} ==> f_0.requires((t,))",
+          "forall|t: R, y: R| f_0.ensures((t,), y) ==> y@ == F(t@)",
+          # the routine does not validate these: tol == 0 (division by it), a negative n_0, an iteration bound beyond the i32 counter
+          "tol@ != 0real", "n_0@ >= 0real", f"{E0} < 2147483646real",
+          # at most one exact zero in the bracket (otherwise both end values can become 0 and the regula-falsi point is 0/0)
+          f"forall|a: real, b: real| {LO} <= a <= {HI} && {LO} <= b <= {HI} && #[trigger] fz(a) && #[trigger] fz(b) ==> a == b",
+          # the end values are not exact zeros (the sign-bit tests of the code are unconstrained there)
+          "F(initial.0@) != 0real && F(initial.1@) != 0real")
     f.ens("tol@ < 0real ==> res is Err",
           "k_1@ < 0real ==> res is Err",
           "k_2@ <= 1real ==> res is Err",
           "k_2@ >= 1real + 0.5real * (1real + rsqrt(5real)) ==> res is Err",
           "F(initial.0@) * F(initial.1@) > 0real ==> res is Err",
           "F(initial.0@) * F(initial.1@) < 0real && res is Ok ==> exists|l: real, r: real| res->Ok_0@ == (l + r) / 2real "
-          "&& rabs(r - l) <= 2real * tol@ && #[trigger] nonpos_nonneg(l, r)")
+          "&& rabs(r - l) <= 2real * tol@ && #[trigger] nonpos_nonneg(l, r)",
+          f"res is Ok ==> {LO} <= res->Ok_0@ <= {HI}")
+    EJ = "(n_max@ + n_0@ - (j as real))"
     f.loop(1, invariant=[
-        "two@ == 2real", "f == f_0",
-        "F(initial.0@) * F(initial.1@) < 0real ==> F(left@) <= 0real <= F(right@)",
-    ])
+        "two@ == 2real", "f == f_0", "tol@ > 0real", "n_0@ >= 0real", "k_1@ >= 0real", "0 <= j", "n_max@ + n_0@ < 2147483646real",
+        f"{LO} <= rmin(left@, right@) && rmax(left@, right@) <= {HI}",
+        "F(left@) <= 0real <= F(right@)",
+        "left@ == right@ || (f_left@ == F(left@) && f_right@ == F(right@) && F(left@) < F(right@))",
+        f"forall|a: real, b: real| {LO} <= a <= {HI} && {LO} <= b <= {HI} && #[trigger] fz(a) && #[trigger] fz(b) ==> a == b",
+        f"forall|t: R| {LO} <= t@ <= {HI} ==> f_0.requires((t,))", "forall|t: R, y: R| f_0.ensures((t,), y) ==> y@ == F(t@)",
+        # the minmax invariant of ITP: the bracket is at most 2 tol 2^(n_max + n_0 - j) wide -- hence the projection radius is >= 0,
+        # every evaluation point stays inside the bracket, and the loop stops after at most n_max + n_0 iterations
+        f"rabs(right@ - left@) <= 2real * (tol@ * rpowf(2real, {EJ}))",
+    ], decreases="2147483647 - j")
     f.hint("before: let two", r"""proof {
         let a = F(initial.0@); let b = F(initial.1@);
         assert(a * b < 0real ==> ((a < 0real && b > 0real) || (a > 0real && b < 0real))) by(nonlinear_arith);
+        assert(a * b != 0real) by(nonlinear_arith) requires a != 0real, b != 0real;
+        assert(a * b == b * a) by(nonlinear_arith);
     }""")
-    f.hint("after loop 1", r"""proof {
-        if F(initial.0@) * F(initial.1@) < 0real {
-            assert(nonpos_nonneg(left@, right@));
+    f.hint("before: let mut j", r"""proof {
+        // the start: W0 <= 2 tol 2^n_half <= 2 tol 2^(n_half + 2 n_0)
+        let w0 = rabs(right@ - left@); let tt = 2real * tol@; let y = w0 / tt;
+        assert(two@ * tol@ == tt) by(nonlinear_arith) requires two@ == 2real, tt == 2real * tol@;
+        assert(left@ != right@);
+        assert(y > 0real && y * tt == w0) by(nonlinear_arith) requires w0 > 0real, tt > 0real, y == w0 / tt;
+        axiom_log2_ceil(y);
+        let e0 = n_max@ + n_0@;
+        assert(n_half@ == rceil(rlog2(y)));
+        axiom_pow2_mono(n_half@, e0);
+        let p1 = rpowf(2real, n_half@); let p2 = rpowf(2real, e0);
+        assert(w0 <= tt * p2) by(nonlinear_arith) requires y * tt == w0, y <= p1, p1 <= p2, tt > 0real;
+        assert(tt * p2 == 2real * (tol@ * p2)) by(nonlinear_arith) requires tt == 2real * tol@;
+    }""")
+    f.hint("loop 1 begin", r"""let ghost l0 = left@; let ghost r0 = right@; let ghost w = rabs(right@ - left@); let ghost ej = n_max@ + n_0@ - (j as real); let ghost pj = rpowf(2real, ej);
+        proof {
+            axiom_pow2_step(ej);
             assert(two@ * tol@ == 2real * tol@) by(nonlinear_arith) requires two@ == 2real;
-        }
+            // more than 2 tol wide ==> 2^ej > 1 ==> ej > 0: the counter is still below its bound
+            assert(pj > 1real) by(nonlinear_arith) requires w > 2real * tol@, w <= 2real * (tol@ * pj), tol@ > 0real;
+            if ej <= 0real { axiom_pow2_mono(ej, 0real); axiom_pow2_zero(); assert(false); }
+        }""")
+    f.hint("after: let x_f =", r"""proof {
+        assert(f_right@ - f_left@ > 0real);
+        assert(x_f@ * (f_right@ - f_left@) == f_right@ * l0 - f_left@ * r0) by(nonlinear_arith)
+            requires x_f@ == (f_right@ * l0 - f_left@ * r0) / (f_right@ - f_left@), f_right@ - f_left@ > 0real;
+        lemma_falsi_between(l0, r0, f_left@, f_right@, x_f@);
+    }""")
+    f.hint("before: let x_itp =", r"""let ghost d = rabs(x_half@ - x_f@);
+        proof {
+            assert(r@ == tol@ * pj - w / 2real);
+            assert(r@ >= 0real);
+            assert(delta@ >= 0real) by(nonlinear_arith) requires delta@ == k_1@ * rpowf(w, k_2@), k_1@ >= 0real, rpowf(w, k_2@) > 0real;
+            if d > 0real { assert(sigma@ * d == x_half@ - x_f@) by(nonlinear_arith) requires sigma@ == (x_half@ - x_f@) / d, d > 0real; }
+            if delta@ <= d { lemma_truncation_between(x_half@, x_f@, d, sigma@, delta@, x_t@); }
+        }""")
+    f.hint("before: let f_itp =", r"""proof {
+            // the evaluation point lies between x_f and x_half, at most r from x_half
+            if !(rabs(x_t@ - x_half@) <= r@) {
+                assert(d > 0real && delta@ <= d);
+                lemma_projection_between(x_half@, x_f@, d, sigma@, delta@, x_t@, r@, x_itp@, rabs(x_t@ - x_half@));
+            }
+            assert(rmin(l0, r0) <= x_itp@ <= rmax(l0, r0));
+            assert(rabs(x_itp@ - x_half@) <= r@);
+        }""")
+    f.hint("before: j += 1", r"""proof {
+            // new width <= w/2 + r = tol 2^ej = 2 (tol 2^(ej - 1))
+            assert(rabs(right@ - left@) <= tol@ * pj);
+            assert(tol@ * pj == 2real * (tol@ * rpowf(2real, ej - 1real))) by(nonlinear_arith) requires pj == 2real * rpowf(2real, ej - 1real);
+            assert((j + 1) as real == (j as real) + 1real);
+            if left@ != right@ && !(F(left@) < F(right@)) { assert(fz(left@) && fz(right@)); }
+        }""")
+    f.hint("after loop 1", r"""proof {
+        assert(nonpos_nonneg(left@, right@));
+        assert(two@ * tol@ == 2real * tol@) by(nonlinear_arith) requires two@ == 2real;
     }""")
     return f
 
@@ -172,15 +250,19 @@ DECIDED = [
     "bisection: at most n_max loop iterations (decreases n_max + 1 - n), one evaluation per iteration, two before the loop",
     "Err for: same-sign end values (all three), left >= right and tol <= 0 (bisection), tol < 0 (brent, itp), k_1 < 0, k_2 outside (1, 1+phi) (itp)",
     "itp: an Ok result is the midpoint of a pair (l, r) with F(l) <= 0 <= F(r) and |r - l| <= 2 tol",
+    "itp (functions with at most one exact zero in the bracket, end values not exact zeros, tol != 0, n_0 >= 0, iteration bound within the i32 counter): the minmax invariant of ITP -- the bracket is at most "
+    "2 tol 2^(n_max + n_0 - j) wide at the head of iteration j -- is a loop invariant; hence the projection radius is >= 0, the regula-falsi point, the truncated point and the projected point all lie inside the current bracket "
+    "(three NRA lemmas), EVERY evaluation point lies inside the initial interval (it is the callback's precondition), an Ok result lies inside it, and the loop terminates: at most n_half + 2 n_0 iterations "
+    "(decreases clause; the attribute exec_allows_no_decreases_clause is gone), i.e. at most n_half + 2 n_0 + 2 evaluations",
 ]
 NOT_DECIDED = [
-    "termination of brent and itp (no iteration counter in the code; the ITP bound needs log2/ceil/powf facts) -- loops are marked exec_allows_no_decreases_clause",
-    "itp: that evaluation points stay inside the initial interval (needs r >= 0, i.e. the log2/ceil/powf projection-radius argument; powf/log2/ceil are uninterpreted)",
+    "termination of brent (no iteration counter in the code) -- its loop is marked exec_allows_no_decreases_clause",
+    "itp outside the hypotheses listed under DECIDED (several exact zeros in the bracket, tol == 0, negative n_0: none of them is rejected by the routine)",
     "behaviour that depends on the sign bit of an exact zero (+0.0/-0.0): is_sign_positive/negative are unconstrained at 0, the contract then only claims `the callback was evaluated on an exact root in the bracket`",
 ]
 ASSUMPTIONS = [
     "callbacks are pure functions of their argument (uninterpreted F)",
     "bisection: n_max < usize::MAX (the counter n += 1 would otherwise overflow after 2^64 iterations)",
     "brent: not both end points are exact roots (0/0 in the first secant step)",
-    "itp: overflow of the i32 iteration counter is not checked (rule R9-wrapping-counter)",
+    "itp: trusted facts about 2^x, log2 and ceil on the reals (prelude/real.rs: 2^x = 2 * 2^(x-1) > 0, monotone, 2^0 = 1, y <= 2^ceil(log2 y)); three NRA lemmas discharged by z3 (cvc5, z3 5.1 in the thorough tier)",
 ]
